@@ -257,6 +257,13 @@ class World:
             self.knob_objs[op[1]] = task
         elif k == "unregid":
             self.m.unregister(op[1])
+        elif k == "export":
+            # another manager copies this manager's expressions (a query on this one; it may fill caches here)
+            import xdeps
+            other = xdeps.Manager()
+            other.ref(snapshot(self.data), "s")
+            other.ref(self.funcs, "f")
+            other.copy_expr_from(self.m, "s")
         elif k == "genfun":
             # generating a setter function is a query: it must not change anything (it may fill caches)
             self.m.gen_fun("fn", **{f"a{i}": self.ref(L) for i, L in enumerate(op[1])})
@@ -315,6 +322,8 @@ def op_str(op):
         return f"m.load({[(T.path_str(a), T.show(b)) for a, b in op[1]]!r}, overwrite={op[2]})"
     if k in ("freeze", "unfreeze"):
         return f"m.{k}_tree()"
+    if k == "export":
+        return "other_manager.copy_expr_from(m, 's')   # this manager is the source"
     if k == "genfun":
         return "m.gen_fun('fn', " + ", ".join(f"a{i}={T.path_str(L)}" for i, L in enumerate(op[1])) + ")"
     return f"m.{k}()"
@@ -333,6 +342,7 @@ def snippet(spec, hist, note=""):
         "    def kw(self, *a, **k): return (tuple(a), tuple(k.items()))",
         "    def size(self, c): return len(c)",
         "    def pair(self, x): return (x, x * 2)",
+        "    def scale(self, x, unit): return x * {'m': 1, 'k': 1000}[unit]",
         "class O:",
         "    def __init__(self, **kw): self.__dict__.update(kw)",
         "PObj = O",
